@@ -21,11 +21,13 @@ import re
 from pathlib import Path
 from urllib.parse import unquote
 
-from harness.common import VERIF, Ctx, clist, cn, coq_make, copt, cstr, parallel_workers
+import ast
+
+from harness.common import PKG, VERIF, Ctx, clist, cn, coq_make, copt, cstr, parallel_workers
 from harness.translators import template as tr
 
 HDR = ("From Coq Require Import String Ascii List Bool NArith.\n"
-       "From V Require Import Model.Template Gen.TemplateGen Model.Trash Model.TrashCheck.\n"
+       "From V Require Import Model.Template Gen.TemplateGen Gen.TrashGen Model.Trash Model.TrashCheck.\n"
        "Import ListNotations.\nOpen Scope string_scope.\n")
 UPESC = re.compile(r"%[0-9A-F]{2}")
 
@@ -52,6 +54,55 @@ ESC = re.compile(r"%[0-9A-Fa-f]{2}")
 
 def ndotdot(s: str) -> int:
     return len(re.findall(r"(?:\.|%2[eE]){2}", s))
+
+
+# ---------------------------------------------------------------------------------------------------------
+# tie T (second translator): is the location of a new artifact containment-checked by Location?
+# ---------------------------------------------------------------------------------------------------------
+class Untranslatable(Exception):
+    pass
+
+
+def translate_location_check():
+    """Gen/TrashGen.v: GEN_LOCATION_CHECKED = every `locationFactory.fromPath(template.format(ref), ...)` in
+    fileDatastore.py passes trusted_path=False (or omits it) AND Location.__init__ still raises when
+    `self.uri.relative_to(root)` is None for an untrusted path.  Fail-closed on anything unexpected."""
+    tree = ast.parse((PKG / "datastores" / "fileDatastore.py").read_text())
+    sites = []
+    for node in ast.walk(tree):
+        if not (isinstance(node, ast.Call) and isinstance(node.func, ast.Attribute) and node.func.attr == "fromPath"):
+            continue
+        a = node.args[0] if node.args else None
+        if not (isinstance(a, ast.Call) and isinstance(a.func, ast.Attribute) and a.func.attr == "format"
+                and isinstance(a.func.value, ast.Name) and a.func.value.id == "template"):
+            continue
+        kw = {k.arg: k.value for k in node.keywords}
+        tp = kw.get("trusted_path")
+        if tp is None:
+            sites.append(False)
+        elif isinstance(tp, ast.Constant) and isinstance(tp.value, bool):
+            sites.append(tp.value)
+        else:
+            raise Untranslatable(f"trusted_path is not a literal at line {node.lineno}")
+    if len(sites) != 2:
+        raise Untranslatable(f"expected 2 template-driven fromPath sites in fileDatastore.py, found {len(sites)}")
+    ltree = ast.parse((PKG / "_location.py").read_text())
+    init = None
+    for cls in ast.walk(ltree):
+        if isinstance(cls, ast.ClassDef) and cls.name == "Location":
+            init = next((f for f in cls.body if isinstance(f, ast.FunctionDef) and f.name == "__init__"), None)
+    if init is None:
+        raise Untranslatable("Location.__init__ not found")
+    guarded = False
+    for node in ast.walk(init):
+        if isinstance(node, ast.If) and "trusted_path" in ast.unparse(node.test) and "not trusted_path" in ast.unparse(node.test):
+            body = ast.unparse(node)
+            if "relative_to" in body and any(isinstance(n, ast.Raise) for n in ast.walk(node)):
+                guarded = True
+    flag = (not any(sites)) and guarded
+    return {"Gen/TrashGen.v": "(* GENERATED on every run by harness/props/c09.py (translate_location_check) from\n"
+                              "   python/lsst/daf/butler/datastores/fileDatastore.py and _location.py.  Do not edit, do not commit. *)\n"
+                              f"Definition GEN_LOCATION_CHECKED : bool := {'true' if flag else 'false'}.\n"}
 
 
 # ---------------------------------------------------------------------------------------------------------
@@ -393,8 +444,11 @@ def run_batch(ctx, hists, label, per_worker=8):
     return pairs
 
 
+XCHECK_MAX = 10
+
+
 def correspond(ctx, name, pairs, expect=None):
-    cases, meta = [], []
+    cases, meta, xcheck = [], [], []
     for hi, (h, res) in enumerate(pairs):
         ctx.count(len(h["ops"]))
         for op in h["ops"]:
@@ -422,7 +476,7 @@ def correspond(ctx, name, pairs, expect=None):
         cid = Cids()
         init = cfiles(res["steps"][0]["files"], cid)
         mops = model_ops(h, res, cid)
-        items = []
+        items, gops = [], []
         for n, m in enumerate(mops[:cut]):
             if m is None:
                 break
@@ -432,17 +486,39 @@ def correspond(ctx, name, pairs, expect=None):
                 # model; what is checked is that nothing changed
                 ctx.hist("compared", "registry-refused-noop:" + af["out"])
                 items.append(f"(Trash [], {cobs(dict(af, out='ok'), cid)})")
+                gops.append("Trash []")
                 continue
             items.append(f"({m}, {cobs(af, cid)})")
+            gops.append(m)
         if cut < len(h["ops"]):
             ctx.hist("compared", "truncated-at-outside-put")
         cases.append(f"({init}, {clist(items)})")
         meta.append((hi, len(items)))
+        # cross-check theorem <-> oracle: an oracle failure at a compared step must coincide with a violated guard of the
+        # theorems in the model's state before that step (otherwise theorem + correspondence would contradict the oracle)
+        if fails and len(xcheck) < XCHECK_MAX:
+            want = sorted({n for _, n, _ in fails if n < len(gops)})
+            if want:
+                xcheck.append((hi, want, f"guards (init_state {init}) {clist(gops)}"))
     if not cases:
         return
     bad = ctx.coq_cases(name, HDR, cases, "chk_hist", shard=25, timeout=900)
     if bad is None:
         return
+    for hi, want, expr in xcheck:
+        if hi in {meta[i][0] for i in bad}:
+            continue
+        rc, out = ctx.coq_eval(f"{name}_guards{hi}", HDR, expr)
+        tuples = re.findall(r"\((true|false),\s*(true|false),\s*(true|false),\s*(true|false)\)", out)
+        if rc != 0 or not tuples:
+            ctx.tie_broken("correspondence", f"{name}-guards", f"could not evaluate the guards: {out[-300:]}")
+            continue
+        for n in want:
+            if n < len(tuples):
+                ctx.hist("guard_crosscheck", "explained" if "false" in tuples[n] else "UNEXPLAINED")
+                if "false" not in tuples[n]:
+                    ctx.tie_broken("correspondence", f"{name}-guards",
+                                   f"oracle failure at step {n} of history {json.dumps(pairs[hi][0]['ops'][n])} although every guard of the theorems holds in the model")
     for i in bad[:3]:
         hi, nsteps = meta[i]
         h, res = pairs[hi]
@@ -495,7 +571,7 @@ def path_cases(ctx):
     for c, o in zip(cases, res):
         ctx.count()
         if o[0] == "ok":
-            obs = f"(Some ({cstr(o[1])}, {ckey(o[2])}))" if not o[2].startswith("/") else f"(Some ({cstr(o[1])}, {clist([cstr('/')] + [cstr(x) for x in o[2].split('/') if x])}))"
+            obs = f"(Some ({cstr(o[1])}, {ckey(o[2])}))" if not o[2].startswith("/") else f"(Some ({cstr(o[1])}, {clist([cstr('..'), cstr('/')] + [cstr(x) for x in o[2].split('/') if x])}))"
             if o[2].startswith(("../", "/")) and not any(ESC.search(x) for x in (c["run"], c["inst"], c["detname"])):
                 ctx.oracle_fail("template-target-outside-root:plain", {"case": c, "observed": o},
                                 f"FileDatastore would write {o[2]} (outside its root) for {c}")
@@ -522,8 +598,10 @@ def load_corpus():
 
 
 def run(ctx: Ctx):
-    frag = VERIF / "known_findings.d" / "C09.json"
-    if frag.exists():
+    if os.environ.get("C09_LOAD_FRAGMENT"):
+        # development knob only (the registered command does not set it): read this property's fragment before the
+        # maintainer has assembled known_findings.json
+        frag = VERIF / "known_findings.d" / "C09.json"
         have = {k["id"] for k in ctx.known}
         ctx.known += [k for k in json.loads(frag.read_text()) if k["id"] not in have and k["property"] == "C09"]
     ctx.assumptions += [
@@ -536,6 +614,7 @@ def run(ctx: Ctx):
                        "but not all datasets of a shared artifact, and at least one file inside the root was actually deleted; path cases are distinct "
                        "(dataset type, data ID, run) triples resolved by the real datastore")
     ctx.regen("template", tr.translate)
+    ctx.regen("location-check", translate_location_check)
     if not ctx.build_props(extra_targets=["Model/TrashCheck.vo"]):
         coq_make(["Model/TrashCheck.vo"])
 
